@@ -1,0 +1,26 @@
+//go:build verif
+
+package blockwise
+
+// Read-only exports for the verification harness (build tag verif only).
+
+const (
+	VerifMaxBlockValue           = maxBlockValue
+	VerifMaxBlockNumber          = maxBlockNumber
+	VerifMoreBlocksFollowingMask = moreBlocksFollowingMask
+	VerifSzxMask                 = szxMask
+)
+
+// VerifSzxToSize returns a copy of the size table.
+func VerifSzxToSize() map[SZX]int64 {
+	out := make(map[SZX]int64, len(szxToSize))
+	for k, v := range szxToSize {
+		out[k] = v
+	}
+	return out
+}
+
+// VerifBufferSize exposes bufferSize.
+func VerifBufferSize(szx SZX, maxMessageSize uint32) int64 {
+	return bufferSize(szx, maxMessageSize)
+}
